@@ -207,14 +207,12 @@ Fixpoint stepn (sorted : bool) (n : nat) (s : st) : st :=
 Definition finish (sorted : bool) (s : st) : st := stepn sorted 24 s.
 
 (* a start that runs to its end: every fraction is classified and its removals are done *)
+Definition start1 (sorted : bool) (s : st) (b : bool) : st :=
+  finish sorted (match pr s with PDown => restart cur_progs sorted s b | _ => s end).
 Fixpoint restart_all (sorted : bool) (d : list st) : list st :=
   match d with
   | [] => []
-  | s :: r =>
-      finish sorted (match pr s with
-                     | PDown => restart cur_progs sorted s (existsb live_active_s r)
-                     | _ => s
-                     end) :: restart_all sorted r
+  | s :: r => start1 sorted s (existsb live_active_s r) :: restart_all sorted r
   end.
 
 (* the process holds the fraction in its list and serves it *)
@@ -257,6 +255,16 @@ Definition after_crashed_pass_v0 (sorted : bool) (k : nat) (sched : list nat) (d
 (* the following pass, run to its end *)
 Definition after_next_pass (sorted : bool) (k' : nat) (d1 : list st) : list st :=
   map (finish sorted) (evict_first k' d1).
+
+(* a complete pass over k' fractions, on the list of "served" flags: the k' oldest served ones go *)
+Fixpoint pat (k : nat) (l : list bool) : list bool :=
+  match l with
+  | [] => []
+  | b :: r => match b, k with
+              | true, S k' => false :: pat k' r
+              | _, _ => b :: pat k r
+              end
+  end.
 
 Fixpoint count_true (l : list bool) : nat :=
   match l with [] => 0 | true :: r => S (count_true r) | false :: r => count_true r end.
